@@ -1017,6 +1017,14 @@ func (g *FuncGen) binopMath(op token.Token, a, b Val, ta, tb types.Type, ii intI
 		return Val{T: fmt.Sprintf("(> %s %s)", a.T, b.T), S: SBool}
 	case token.GEQ:
 		return Val{T: fmt.Sprintf("(>= %s %s)", a.T, b.T), S: SBool}
+	case token.SHL, token.SHR, token.AND, token.OR, token.XOR, token.AND_NOT:
+		// bit operations have no mathematical-integer model here: the result is an unknown value of the type's
+		// range (a sound over-approximation: nothing is learned about it)
+		g.c.note("mathint: result of " + op.String() + " left unconstrained (within the type's range)")
+		r := g.c.fresh("bitop", SInt)
+		lo, hi := intRange(ii)
+		g.c.assert(fmt.Sprintf("(and (<= %s %s) (<= %s %s))", lo, r, r, hi))
+		return Val{T: r, S: SInt}
 	}
 	g.unsup("binop %s in mathint mode", op)
 	return Val{}
